@@ -96,7 +96,7 @@ def drive : List String → String
     | _, _, _ => "bad-op"
   | ["flatset", d, off, bl, l] =>
     match decBytes d, off.toNat?, decBytes bl, decBytes l with
-    | some d, some off, some bl, some l => flatStates d (Flat.setOps off bl l)
+    | some d, some off, some bl, some l => flatStates d (Flat.setOpsOld off bl l)
     | _, _, _, _ => "bad-op"
   | ["flatremove", d, off, bl] =>
     match decBytes d, off.toNat?, decBytes bl with
